@@ -399,6 +399,69 @@ def ecdh_rules(prog, chk, pid):
 
 
 # ------------------------------------------------------------------------------------------------ R5 POLY (thorough)
+# ------------------------------------------------------------------------------------------------ R7 equality of curves / points
+EQ_CLASSES = [
+    # class, fields that must each be compared between self and other
+    (E + "ellipticcurve.CurveFp", ("p", "a", "b")),
+    (E + "ellipticcurve.CurveEdTw", ("p", "a", "d")),
+    (E + "ellipticcurve.Point", ("curve", "x", "y")),
+    (E + "curves.Curve", ("curve", "generator")),
+]
+
+
+def equality_rules(prog, chk, pid):
+    """`same curve?` decides whether foreign points are refused (ECDH._get_shared_secret, PointJacobi.__add__/__eq__, Point.__add__):
+    __eq__ must compare every defining parameter of self with the SAME parameter of other, and agree with __hash__"""
+    from bfsa.terms import subst
+
+    P = lambda s: "%s.%s" % (pid, s)
+    for cq, fields in EQ_CLASSES:
+        ci = prog.cls(cq)
+        fi = prog.method(cq, "__eq__")
+        where = "%s:%d" % (fi.file, fi.lineno)
+        ex = Exec(prog, policy=lambda e, f, d: False)
+        res = ex.run(fi)
+        rets = [e for e in res.events if e.kind == "return" and e.stack == (fi.qualname,) and any(f[0] == "if" and f[2] and unsnap(f[1]).op == "isinst" for f in e.ctx)]
+        ok, why = len(rets) == 1, "expected one comparison result under isinstance(other, %s)" % ci.name
+        if ok:
+            v = unsnap(rets[0].d["value"])
+            r = rel(v, True) if v.op in ("and", "cmp") else None
+            ats = (r[1] if r[0] == "and" else [r]) if r else []
+            ok = bool(ats) and all(a[0] == "rel" and a[1] == "Eq" for a in ats)
+            why = "result is not a conjunction of equalities"
+        if ok:
+            sp, op_ = mk("param", fi.params[0]), mk("param", fi.params[1])
+            # the analysed object for `self` is a heap object whose attribute reads are attr(param self, name)
+            covered = set()
+            for a in ats:
+                L, R = unsnap(a[2]), unsnap(a[3])
+                for f in fields:
+                    cands = ["_%s__%s" % (ci.name, f), f, "_" + f]
+                    for nm in cands:
+                        sa, oa = mk("attr", sp, nm), mk("attr", op_, nm)
+                        for (x, y) in ((L, R), (R, L)):
+                            if any(t is sa for t in subterms(x)) and subst(x, {sa.uid: oa}) is y and x is not y:
+                                covered.add(f)
+            missing = [f for f in fields if f not in covered]
+            ok = not missing and len(ats) == len(fields)
+            why = "parameter(s) %s of self are not compared with the same parameter of other (atoms: %s)" % (missing or "-", "; ".join(show_rel(a, 5) for a in ats)[:220])
+        chk.require(ok, P("equality-compares-all-parameters"), fi.qualname, " and ".join("self.%s == other.%s" % (f, f) for f in fields), where,
+                    "two objects are equal only if every defining parameter agrees (each compared between self and other)", why)
+        hm = ci.methods.get("__hash__")
+        if hm is not None:
+            rh = Exec(prog, policy=lambda e, f, d: False).run(hm)
+            txt = show(rh.ret, 8) if rh.ret is not None else ""
+            okh = all(("__%s" % f) in txt or (".%s" % f) in txt for f in fields)
+            chk.require(okh, P("hash-agrees-with-equality"), hm.qualname, "hash((%s))" % ", ".join(fields), "%s:%d" % (hm.file, hm.lineno), "the hash covers the parameters equality compares", "__hash__ does not cover %s (%s)" % (fields, txt[:80]))
+        # __ne__ is the negation of __eq__
+        nm_ = ci.methods.get("__ne__")
+        if nm_ is not None:
+            rn = Exec(prog, policy=lambda e, f, d: False).run(nm_)
+            v = unsnap(rn.ret) if rn.ret is not None else None
+            okn = v is not None and ((v.op == "un" and v.args[0] == "Not") or (v.op == "cmp" and v.args[0] == "NotEq")) and "other" in show(v, 6) and "self" in show(v, 6)
+            chk.require(okn, P("ne-negates-eq"), nm_.qualname, "not self == other", "%s:%d" % (nm_.file, nm_.lineno), "inequality is the negation of equality", "__ne__ is not `not self == other` (%s)" % (show(v, 5)[:60] if v is not None else None))
+
+
 def poly_rules(prog, chk, pid):
     """formula functions as polynomial identities (mod-p reductions dropped: ring homomorphism Z[..] -> F_p[..])"""
     try:
@@ -503,6 +566,7 @@ def run(prog, chk, tier):
     canon_rules(prog, chk, "C17")
     sibling_rules(prog, chk, "C17")
     ecdh_rules(prog, chk, "C17")
+    equality_rules(prog, chk, "C17")
     c09.validation_chain_rules(prog, chk, "C17")
     if tier == "thorough":
         poly_rules(prog, chk, "C17")
